@@ -15,6 +15,14 @@ def _root_.Zeno.SCond.eval (v : SAtom → Bool) : SCond → Bool
 
 def rejectsBy (gs : List SCond) (v : SAtom → Bool) : Bool := gs.any (fun g => g.eval v)
 
+/-- nothing in the condition is opaque to the translator -/
+def _root_.Zeno.SCond.known : SCond → Bool
+  | .atom _ => true
+  | .not c => c.known
+  | .and a b => a.known && b.known
+  | .or a b => a.known && b.known
+  | .unknown _ => false
+
 /-- the operator's scope as the property states it: with include filters, none of them matches; or an exclude host / string occurs; or an
 exclusion regex matches -/
 def specRejects (v : SAtom → Bool) : Bool :=
@@ -81,6 +89,15 @@ def _root_.Zeno.PCond.eval (e : PEnv) : PCond → Bool
   | .unknown _ => true
 
 def completesEarly (gs : List PCond) (e : PEnv) : Bool := gs.any (fun g => g.eval e)
+
+/-- nothing in the condition is opaque to the translator -/
+def _root_.Zeno.PCond.known : PCond → Bool
+  | .const _ => true
+  | .atom _ => true
+  | .not c => c.known
+  | .and a b => a.known && b.known
+  | .or a b => a.known && b.known
+  | .unknown _ => false
 
 /-- the same decision as the model's `postAct` takes it (its second to fourth branch) -/
 def modelCompletesEarly (S : SF) (e : PEnv) : Bool :=
